@@ -12,7 +12,6 @@ import (
 	"log/slog"
 	"os"
 	"runtime/debug"
-	"runtime/pprof"
 )
 
 type alphaRec struct {
@@ -79,7 +78,7 @@ type output struct {
 	Degenerate  int            `json:"degenerate"` // concrete damage that changed nothing the abstract one changes: skipped
 	EmptyClass  int            `json:"empty_class"`
 	MaxAllocMB  int            `json:"max_alloc_mb"`
-	Amplified   int            `json:"amplified"` // Opens that allocated far more than the file could justify
+	Amplified   int            `json:"amplified"`  // Opens that allocated far more than the file could justify
 	FieldBits   map[string]int `json:"field_bits"` // field:bit -> files
 	Kinds       map[string]int `json:"kinds"`      // damage kind -> files
 	Divergences []divergence   `json:"divergences"`
@@ -123,12 +122,6 @@ func main() {
 	// caller sets RLIMIT_AS so that a runaway request kills this process instead of the machine
 	debug.SetMemoryLimit(1536 << 20)
 
-	if pf := os.Getenv("VCODEC_CPUPROFILE"); pf != "" {
-		if f, err := os.Create(pf); err == nil {
-			pprof.StartCPUProfile(f)
-			defer pprof.StopCPUProfile()
-		}
-	}
 	r := &runner{inp: &inp, res: &output{FieldBits: map[string]int{}, Kinds: map[string]int{}}, outPath: *out}
 	r.alpha = map[int]alphaRec{}
 	for _, a := range inp.Alpha {
